@@ -59,6 +59,6 @@ Definition custom_translated (gen : list (string * crule)) (id : string) : bool 
 
 Definition show_crule (r : crule) : string :=
   match r with
-  | CRStarLoad lit f l => String.concat "" ["load: """; lit; """ sets "; f; " and clears "; l; ", every other element is parsed into "; l]
-  | CRStarSave lit f l => String.concat "" ["save: ["""; lit; """] when "; f; ", else "; l]
+  | CRStarLoad lit f l => String.concat "" ["load: element '"; lit; "' sets "; f; " and clears "; l; ", every other element is parsed into "; l]
+  | CRStarSave lit f l => String.concat "" ["save: ['"; lit; "'] when "; f; ", else "; l]
   end.
